@@ -360,7 +360,23 @@ class Result:
         self.disagreements.append({"what": what, "case": case})
 
 
+def jsonable(x):
+    """make any harness value JSON-serialisable (tuple keys, sets, bytes, objects)"""
+    if isinstance(x, dict):
+        return {(k if isinstance(k, str) else repr(k)): jsonable(v) for k, v in x.items()}
+    if isinstance(x, (list, tuple)):
+        return [jsonable(v) for v in x]
+    if isinstance(x, (set, frozenset)):
+        return sorted((jsonable(v) for v in x), key=repr)
+    if isinstance(x, (str, int, float, bool)) or x is None:
+        return x
+    if isinstance(x, bytes):
+        return x.hex()
+    return repr(x)
+
+
 def write_replay(pid, obj) -> Path:
+    obj = jsonable(obj)
     d = ROOT / "replays" / pid
     d.mkdir(parents=True, exist_ok=True)
     s = json.dumps(obj, sort_keys=True, default=str)
@@ -505,7 +521,7 @@ def main(argv=None):
         ev["coverage"]["obligations_total"] = ev["coverage"].pop("obligations")
         ev["coverage"]["discharged_total"] = ev["coverage"].pop("discharged")
     (ROOT / "evidence").mkdir(exist_ok=True)
-    (ROOT / "evidence" / f"{pid}.json").write_text(json.dumps(ev, indent=1, default=str))
+    (ROOT / "evidence" / f"{pid}.json").write_text(json.dumps(jsonable(ev), indent=1, default=str))
     for ln in lines:
         print(ln)
     print(f"[{pid}] tier={tier} seed={seed} proof={'ok' if proof_ok else 'BROKEN'} obligations={len(obligations)} "
